@@ -41,6 +41,73 @@ def physical_qp(region):
     return np.einsum("caI,aqc->qcI", region.mesh.points[cells], h)
 
 
+# fourth audit (mirrored oracles): the element a template is documented to pair with its cell type, named by the check (a shadow of the
+# documentation, not read back from the region); the functions of these classes are C04's subject
+ELEMENT_OF = {"quad": "Quad", "quad8": "QuadraticQuad", "quad9": "BiQuadraticQuad", "hexahedron": "Hexahedron",
+              "hexahedron20": "QuadraticHexahedron", "hexahedron27": "TriQuadraticHexahedron", "triangle": "Triangle",
+              "triangle6": "QuadraticTriangle", "tetra": "Tetra", "tetra10": "QuadraticTetra"}
+
+
+def own_rule(dim, simplex, n):
+    """Oracle side: a quadrature rule that owes nothing to the library's tables (fourth audit, items 1 and 3). numpy's Gauss-Legendre
+    points, tensorised on [-1, 1]^dim; for the unit simplex collapsed by Duffy's map r = u, s = v (1 - u), t = w (1 - u) (1 - v) with
+    the weight (1 - u)^(dim - 1) (1 - v)^(dim - 2). Exact for tensor degree 2 n - 1 (minus the degree of the collapse)."""
+    x, w = np.polynomial.legendre.leggauss(n)
+    if simplex:
+        x, w = 0.5 * (x + 1), 0.5 * w
+    P = np.array(list(itertools.product(x, repeat=dim)))
+    W = np.prod(np.array(list(itertools.product(w, repeat=dim))), axis=1)
+    if simplex and dim == 2:
+        P, W = np.stack([P[:, 0], P[:, 1] * (1 - P[:, 0])], 1), W * (1 - P[:, 0])
+    elif simplex:
+        P, W = (np.stack([P[:, 0], P[:, 1] * (1 - P[:, 0]), P[:, 2] * (1 - P[:, 0]) * (1 - P[:, 1])], 1),
+                W * (1 - P[:, 0]) ** 2 * (1 - P[:, 1]))
+    return P, W
+
+
+def own_gram(element, Xc, P, W):
+    """Oracle side: int_cell grad h_a . grad h_b dV of every cell with nodes `Xc` (c, a, I), by the rule (P, W) and the chain
+    J = X_a (x) dh_a/dr, dh/dX = dh/dr J^-1, dV = det J W written out here; no region takes part. Returns (a, b, c)."""
+    G = np.array([element.gradient(p) for p in P])  # (q, a, K)
+    J = np.einsum("caI,qaK->cqIK", Xc, G)
+    B = np.einsum("qaK,cqKJ->cqaJ", G, np.linalg.inv(J))
+    return np.einsum("cqaJ,cqbJ,cq->abc", B, B, W[None, :] * np.linalg.det(J))
+
+
+def own_faces(element, mesh, n, only_surface, pull):
+    """Oracle side: the faces of the quad / hexahedron cells of the caller's mesh, enumerated here as "reference coordinate k = -1 / +1"
+    in the cell's own connectivity (no rotated copies of the cells), with numpy's Gauss-Legendre rule of `n` points per direction on
+    them and dA = |dX/dr_t| resp. |dX/dr_t1 x dX/dr_t2|. `only_surface`: the faces whose centre - pulled back by `pull` to the box the
+    generator meshed - lies on the boundary of that box. Returns the number of faces, their area, and the matrix
+    sum_faces int_face grad h_a . grad h_b dA assembled over the points of the mesh (which face of which cell comes first in the
+    boundary region carries no meaning)."""
+    X, cells = mesh.points, mesh.cells
+    Xc = X[cells]
+    dim = X.shape[1]
+    T, WT = own_rule(dim - 1, False, n)
+    Y = pull(X)
+    lo, hi = Y.min(0), Y.max(0)
+    Kg = np.zeros((mesh.npoints, mesh.npoints))
+    nfaces, area = 0, 0.0
+    for k in range(dim):
+        tang = [j for j in range(dim) if j != k]
+        for s in (-1.0, 1.0):
+            P = np.zeros((len(T), dim))
+            P[:, tang], P[:, k] = T, s
+            G = np.array([element.gradient(p) for p in P])  # (q, a, K)
+            J = np.einsum("caI,qaK->cqIK", Xc, G)
+            B = np.einsum("qaK,cqKJ->cqaJ", G, np.linalg.inv(J))
+            dA = np.linalg.norm(J[..., tang[0]] if dim == 2 else np.cross(J[..., tang[0]], J[..., tang[1]]), axis=-1) * WT[None, :]
+            cen = pull(np.einsum("caI,a->cI", Xc, element.function(P.mean(0))))
+            sel = np.ones(len(cells), bool)
+            if only_surface:
+                sel = np.min(np.minimum(np.abs(cen - lo), np.abs(cen - hi)), axis=1) < 1e-9 * float((hi - lo).max())
+            nfaces += int(sel.sum())
+            area += float(dA[sel].sum())
+            np.add.at(Kg, (cells[sel][:, :, None], cells[sel][:, None, :]), np.einsum("cqaJ,cqbJ,cq->cab", B[sel], B[sel], dA[sel]))
+    return nfaces, area, Kg
+
+
 def build_region(run, fam, mesh, hess):
     """Build the template under a warnings recorder; returns (region, n_warnings)."""
     with warnings.catch_warnings(record=True) as w:
@@ -311,6 +378,19 @@ def case_exact_integration(fam):
                         maxabs(K - Kref) / maxabs(Kref), 1e-11,
                         "%s: default quadrature does not integrate grad h_a . grad h_b exactly on affine cells" % fam,
                         unit=fam + ":exact-integration", config=(fam, geometry, "exact-integration"))
+            # fourth audit, items 1 and 3: that reference is built by the template under test (which may not take the rule it is handed:
+            # K == Kref trivially) from the library's own tables (a defect of all orders of a scheme cancels). The second reference is the
+            # integral itself: numpy's Gauss-Legendre points (Duffy-collapsed on simplices), the documented element of the family and
+            # the Jacobian chain written out in own_gram, on the caller's mesh; no region, no library rule.
+            if ref.h.shape[1] != len(qhi.points) or ref.dV.shape[0] != len(qhi.points):
+                run.fail("region.exact-integration", "template=%s geometry=%s clause=quadrature-argument" % (fam, geometry),
+                         "%s(mesh, quadrature=rule with %d points) holds arrays at %d points" % (F["region"], len(qhi.points), ref.h.shape[1]))
+            Ko = own_gram(getattr(fem.element, ELEMENT_OF[fam])(), mesh.points[mesh.cells], *own_rule(dim, simplex, F["order"] + 3))
+            run.compare("region.exact-integration", "template=%s geometry=%s clause=exact-gradient-products[own rule]" % (fam, geometry),
+                        maxabs(K - Ko) / maxabs(Ko), 1e-12,
+                        "%s: sum_q grad h_a . grad h_b dV of the default quadrature is not the integral on affine cells (reference: "
+                        "Gauss-Legendre points of numpy and the Jacobian chain of the check on the caller's mesh)" % fam,
+                        unit=fam + ":exact-integration-own-rule", config=(fam, geometry, "exact-integration-own-rule"))
     return fn
 
 
@@ -531,7 +611,7 @@ def case_paths(rep):
                         "mixed container: dual fields are not interpolated values in extract()", unit="paths:mixed-extract")
         # ---- reload after a mesh change (documented: mesh.update(points, callback=region.reload))
         A, t = gen.random_affine(rng, dim)
-        vol0 = float(reg.dV.sum())
+        vol0 = info["volume"]  # known from the generator (fourth audit, item 5: it was what the region measured before the change)
         t = t * float(np.ptp(mesh.points, axis=0).max())  # translations in units of the body (it may be micrometres long already)
         mesh.update(points=mesh.points @ A.T + t, callback=reg.reload)
         run.compare(mon, "template=%s clause=reload-volume" % fam, abs(reg.dV.sum() - vol0 * np.linalg.det(A)) / (vol0 * np.linalg.det(A)), 1e-11,
@@ -559,7 +639,7 @@ def case_paths(rep):
         # ---- bare reload() after the points of the mesh were changed in place ("reload the numeric region inplace",
         #      every argument optional): shape functions, gradients and volumes must follow the new geometry
         A5, t5 = gen.random_affine(rng, dim)
-        vol5 = float(reg.dV.sum())
+        vol5 = vol0 * float(np.linalg.det(A))  # known from the generator and the map of the step before
         mesh.points[:] = mesh.points @ A5.T + t5 * float(np.ptp(mesh.points, axis=0).max())
         reg.reload()
         run.compare(mon, "template=%s clause=bare-reload-volume" % fam, abs(reg.dV.sum() - vol5 * np.linalg.det(A5)) / (vol5 * np.linalg.det(A5)), 1e-11,
@@ -861,6 +941,46 @@ def case_boundary_templates(fam, rep):
         run.compare(mon, "template=%s clause=grad" % BOUNDARY_TEMPLATES[fam], maxabs(fld.grad() - gref) * hs / fs, 1e-10,
                     "%s: the gradient on the faces does not reproduce the analytic gradient of a degree-%d polynomial" % (BOUNDARY_TEMPLATES[fam], order),
                     unit="boundary-template:%s:grad" % fam, config=(fam, geometry, "boundary-grad"))
+        # ---- fourth audit, item 2: `Xq` above is where the object says its points are (its face rule, its rotated copies of the cells,
+        #      its selection of faces): points inside the body, interior faces kept by only_surface=True or a one-point face rule
+        #      move the reference along. What follows owes nothing to the object but the arrays under test.
+        name = BOUNDARY_TEMPLATES[fam]
+        surf = bool(rep % 2)
+        A, t = (info["A"], info["t"]) if info["A"] is not None else (np.eye(dim), np.zeros(dim))
+        Ainv = np.linalg.inv(A)
+        pull = lambda Z: (Z - t) @ Ainv.T  # back to the box the generator meshed (the distorted class keeps its boundary and is no image)
+        nfaces, area, Ko = own_faces(getattr(fem.element, ELEMENT_OF[fam])(), mesh, F["order"] + 3, surf, pull)
+        # (a) as many faces as the body has (only_surface=True: the faces on the boundary of the box; False: 2 dim per cell)
+        if rb.mesh.ncells == nfaces and rb.dV.shape[-1] == nfaces and fld.grad().shape[-1] == nfaces:
+            run.ok(mon, unit="boundary-template:%s:face-count" % fam, config=(fam, geometry, surf, "boundary-face-count"))
+        else:
+            run.fail(mon, "template=%s clause=face-count[only_surface=%s]" % (name, surf),
+                     "%s(only_surface=%s): %d faces on a body that has %d" % (name, surf, rb.mesh.ncells, nfaces))
+        # (b) the quadrature points lie on faces: on the boundary of the box (only_surface=True), on a grid plane of the box (all
+        #     faces of the affine classes; the interior faces of the distorted class are no planes)
+        Yq = pull(Xq)
+        Yv = pull(mesh.points[mesh.cells[:, :F["nv"]]].reshape(-1, dim))
+        size = float(np.ptp(Yv, axis=0).max())
+        if surf or geometry != "distorted":
+            if surf:
+                dist = np.min(np.minimum(np.abs(Yq - Yv.min(0)), np.abs(Yq - Yv.max(0))), axis=-1)
+            else:
+                dist = np.min([np.abs(Yq[..., k, None] - np.unique(Yv[:, k])).min(-1) for k in range(dim)], axis=0)
+            run.compare(mon, "template=%s clause=points-on-faces[only_surface=%s]" % (name, surf), float(dist.max()) / size, 1e-12,
+                        "%s: a quadrature point does not lie on %s" % (name, "the boundary of the body" if surf else "a face of a cell"),
+                        unit="boundary-template:%s:points-on-faces" % fam, config=(fam, geometry, surf, "boundary-points-on-faces"))
+        # (c) the template's default face rule integrates products of shape-function gradients exactly on the faces of affine cells,
+        #     and its dV are the areas: reference from own_faces (numpy's Gauss-Legendre points on every face of the caller's cells)
+        if geometry != "distorted":
+            Kl = np.einsum("aJqc,bJqc,qc->cab", rb.dhdX, rb.dhdX, rb.dV)
+            Kg = np.zeros_like(Ko)
+            np.add.at(Kg, (rb.mesh.cells[:, :, None], rb.mesh.cells[:, None, :]), Kl)
+            run.compare(mon, "template=%s clause=exact-gradient-products-on-faces" % name, maxabs(Kg - Ko) / maxabs(Ko), 1e-12,
+                        "%s: sum over faces and points of grad h_a . grad h_b dV, assembled over the points of the mesh, is not the "
+                        "integral over the faces of the affine cells" % name,
+                        unit="boundary-template:%s:face-gram" % fam, config=(fam, geometry, surf, "boundary-face-gram"))
+            run.compare(mon, "template=%s clause=face-area" % name, abs(float(rb.dV.sum()) - area) / area, 1e-12,
+                        "%s: sum dV is not the area of the faces" % name, unit="boundary-template:%s:face-gram" % fam)
     return fn
 
 
@@ -1041,6 +1161,16 @@ def lagrange_reproduction(run, rng, order, dim, tag="", unit=None):
             run.compare("region.lagrange", "template=%s clause=exact-gradient-products" % lab, maxabs(K - Kref) / maxabs(Kref), 1e-10,
                         "%s: default quadrature does not integrate grad h_a . grad h_b exactly on an affine cell" % lab,
                         unit="lagrange:exact-integration" + tag, config=(lab, "exact-integration"))
+            # fourth audit, items 1 and 3: the same integral by numpy's Gauss-Legendre points and own_gram's Jacobian chain, with the
+            # element the caller's (order, dim) name; no region, no library rule
+            if ref.h.shape[1] != (order + 3) ** dim:
+                run.fail("region.lagrange", "template=%s clause=quadrature-argument" % lab,
+                         "RegionLagrange(quadrature=rule with %d points) holds arrays at %d points" % ((order + 3) ** dim, ref.h.shape[1]))
+            Ko = own_gram(fem.ArbitraryOrderLagrangeElement(order=order, dim=dim), m.points[m.cells], *own_rule(dim, False, order + 2))
+            run.compare("region.lagrange", "template=%s clause=exact-gradient-products[own rule]" % lab, maxabs(K - Ko) / maxabs(Ko), 1e-10,
+                        "%s: sum_q grad h_a . grad h_b dV of the default quadrature is not the integral on an affine cell (reference: "
+                        "Gauss-Legendre points of numpy and the Jacobian chain of the check)" % lab,
+                        unit="lagrange:exact-integration-own-rule" + tag, config=(lab, "exact-integration-own-rule"))
             vol = float(np.prod(mesh.points.max(0) - mesh.points.min(0))) * s ** dim
             if geometry == "affine":
                 vol *= float(np.linalg.det(A))
@@ -1381,7 +1511,13 @@ def case_family_equality(rep):
                     A, t = gen.random_affine(rng, gen.FAMILIES[fam]["dim"])
                 mesh = mesh.copy(points=mesh.points @ A.T + t)
                 vols[fam] = float(gen.make_region(fam, mesh).dV.sum())
+                known = info["volume"] * float(np.linalg.det(A))  # the distorted class keeps the box
             ref = vols[group[0]]
+            # fourth audit, item 5: the first family is the reference of the others; all of them against the volume the generator knows
+            for fam, v in vols.items():
+                run.compare("region.family-equality", "template=%s clause=volume-known" % fam, abs(v - known) / known,
+                            1e-11, "%s does not measure the volume of the straight-sided body" % fam, unit="family-equality:known",
+                            config=(fam, "family-equality-known"))
             for fam, v in vols.items():
                 run.compare("region.family-equality", "template=%s clause=volume-equal-across-families" % fam, abs(v - ref) / ref,
                             1e-11, "%s measures another volume than %s on the same straight-sided body" % (fam, group[0]),
@@ -1443,6 +1579,10 @@ def _required():
     req += ["dual:numbering", "dual:options-space", "dual:lagrange-space", "dual:mixed-values"]
     req += ["lagrange:grad-high", "lagrange:grad-order1", "lagrange:exact-integration-high", "lagrange:curve"]
     req += ["structural:constant", "constant:interpolate", "constant:vertex"]
+    # fourth audit (mirrored oracles)
+    req += [fam + ":exact-integration-own-rule" for fam in ELEMENT_OF]
+    req += ["lagrange:exact-integration-own-rule", "lagrange:exact-integration-own-rule-high", "family-equality:known"]
+    req += ["boundary-template:%s:%s" % (f, u) for f in BOUNDARY_TEMPLATES for u in ("face-count", "points-on-faces", "face-gram")]
     return req
 
 
@@ -1454,6 +1594,9 @@ SPEC = {
              "cells, <= 1 otherwise) compared with analytic value/gradient/hessian at the physical quadrature points; a "
              "configuration is distinct by (template, geometry class, clause, degree)"),
     "assumptions": ["geometric volumes are known from the generator (box volume x det A; the straight-distorted class keeps the "
-                    "box boundary)", "analytic polynomial derivatives are the reference"],
+                    "box boundary)", "analytic polynomial derivatives are the reference",
+                    "exact integration (cells and boundary faces): numpy's Gauss-Legendre points (Duffy-collapsed on simplices) and "
+                    "the Jacobian chain of the check, with the element class the documentation pairs with the cell type (its "
+                    "functions are C04's subject)"],
     "jobs": {"quick": 8, "thorough": 16},
 }
